@@ -19,11 +19,26 @@ for n in $NAMES; do
     res="$res $c:rc=$rc"
   done
   git -C /repo worktree remove --force $W
-  caught=$(echo "$res" | grep -q "$prop:rc=1" && echo true || echo false)
   python3 - <<PY
-import json
-json.dump({"name":"$n","property":"$prop","results":"$res".split(),"caught_by_own_property":"$caught"=="true",
-           "violation_line":[l.strip() for l in open("$d/last_$prop.log") if l.startswith("VIOLATION")][:1] if "$prop:rc" in "$res" else []}, open("$d/result.json","w"), indent=1)
+import json, re, os
+res = "$res".split()
+prop = "$prop"
+det = {}
+for c in "$checks".split():
+    lp = "$d/last_%s.log" % c
+    if not os.path.exists(lp): continue
+    t = open(lp).read()
+    vio = [l.strip() for l in t.splitlines() if l.startswith("VIOLATION")]
+    kinds = re.findall(r"^\[check %s\] (spec|model|tie|proof|static-gate): (.*)$" % c, t, re.M)
+    codes = re.findall(r"codes (\[[^\]]*\])", t)
+    concrete = bool(vio) and not vio[0].endswith("no-failing-input-found")
+    det[c] = {"violation": vio[:1], "concrete_input": concrete, "kinds": sorted({k for k, _ in kinds}), "codes": codes[:2],
+              "panic_or_hang": ("panicked" in t or "no progress" in t)}
+own = det.get(prop, {})
+caught = bool(own.get("concrete_input")) and ("spec" in own.get("kinds", []) or "model" in own.get("kinds", []))
+json.dump({"name": "$n", "property": prop, "results": res, "caught_by_own_property": caught, "details": det}, open("$d/result.json", "w"), indent=1)
+open("$d/.caught", "w").write("true" if caught else "false")
 PY
+  caught=$(cat $d/.caught); rm -f $d/.caught
   echo "$n ($prop):$res caught=$caught"
 done
